@@ -7,6 +7,7 @@ BBoth == {TRUE, FALSE}
 BNo == {FALSE}
 OCAll == {"none", "Unknown", "False"}
 OCTwo == {"none", "False"}
+OCNone == {"none"}
 PAll == {"fair", "noOG", "zeroOG", "strOG", "stuck"}
 PThree == {"fair", "zeroOG", "stuck"}
 PFair == {"fair"}
